@@ -7,7 +7,7 @@ from ..layouts import zoo, contiguous, fortran
 from ..nd import prod
 from ..pyfloat import FP
 from ..codec import bits_f64
-from .numcommon import arr_tokens, float_pool, model_ints
+from .numcommon import arr_tokens, float_pool, model_ints, alias_pairs, enc_vals
 from ..plans import sum_plan, plan_term
 from ..core import zlist
 
@@ -75,6 +75,34 @@ class C20(Prop):
                 c._la, c._lb = lay, lb
                 yield c
 
+        # two operands that are views into ONE allocation (same first and last element with different strides: a square
+        # block against its transpose, a cube against an axis permutation of itself, reversed against forward, stepped
+        # against prefix): the statistics of the pair must be those of two independent arrays with the same contents
+        for g in range(10 if tier == "quick" else 400):
+            nd = rng.range(1, 3)
+            side = rng.range(2, 3)
+            shape = [side] * nd
+            for et in ("f64", "i64"):
+                for k, (la, lb) in enumerate(alias_pairs(shape, rng)[:4]):
+                    m = la.parent_len()
+                    pbuf = float_pool(5, m, rng, "f64") if et == "f64" else [rng.range(-9, 9) for _ in range(m)]
+                    if len(set(pbuf)) < 2:
+                        pbuf[0] = pbuf[0] + 1
+                    a = [pbuf[c] for c in la.cells()]
+                    b = [pbuf[c] for c in lb.cells()]
+                    grp = "%sx%d_%d" % (et[0], g, k)
+                    ca, cb = contiguous(la.shape()), contiguous(lb.shape())
+                    line = "%s | %s | %s" % (et, arr_tokens(et, a, ca), arr_tokens(et, b, cb))
+                    c = Case("layoutinv", " ".join(line.split()), et=et, grp=grp, a=a, b=b, shape=la.shape(), layout="independent copies")
+                    c._la, c._lb = ca, cb
+                    yield c
+                    toks = enc_vals(et, pbuf)
+                    line = "%s | %s | %d %s | %s | @" % (et, la.tokens(), len(toks), " ".join(toks), lb.tokens())
+                    c = Case("layoutinv", " ".join(line.split()), et=et, grp=grp, a=a, b=b, shape=la.shape(),
+                             layout="aliased: " + la.describe() + "//" + lb.describe())
+                    c._la, c._lb = la, lb
+                    yield c
+
     def parse(self, case):
         case.obs = parse_bundle(case.raw)
 
@@ -91,8 +119,9 @@ class C20(Prop):
             sw = sum(b)
             s = float(sum(abs(x * y) for x, y in zip(a, b)) / abs(sw)) * (1 + float(sum(abs(y) for y in b) / abs(sw))) if sw != 0 else 1.0
         elif stat == "cm3":
-            sc = float(max(abs(x) for x in a))
-            s = float(sum(abs(x - m) ** 3 for x in a)) / n + 3 * sc * float(sum((x - m) ** 2 for x in a)) / n
+            sc = max(abs(x) for x in a)
+            delta = 4 * (n + 14) * fp.u * sc      # error of the computed mean: enters only through the deviations (D7 repaired)
+            s = float(sum((abs(x - m) + delta) ** 3 for x in a)) / n
         elif stat in ("ent", "kl"):
             s = sum(abs(y * math.log(y)) for y in case.b if y > 0) + 1e-300
         elif stat in ("cross", "klab"):
